@@ -72,6 +72,11 @@ func genConforming(t *rapid.T) Case {
 	case k < 18:
 		c.Connect = "listen"
 		c.DialScript = pre
+		if rapid.IntRange(0, 2).Draw(t, "late_accept") == 0 {
+			c.Early = rapid.IntRange(1, 4).Draw(t, "early")
+			c.EarlyN = rapid.SampledFrom([]int{1, 5, 64, 500, 3000}).Draw(t, "early_n")
+			c.EarlySeed = rapid.Uint64().Draw(t, "early_seed")
+		}
 	default:
 		c.Connect = "dial-fail"
 	}
